@@ -62,6 +62,11 @@ func (msg *message) fetch(w *imapserver.FetchResponseWriter, options *imap.Fetch
 		wc := w.WriteBodySection(bs, int64(len(buf)))
 		_, writeErr := wc.Write(buf)
 		closeErr := wc.Close()
+		if writeErr != nil || closeErr != nil {
+			// The response is incomplete, but the writer still needs to be
+			// closed: it holds the connection's encoder
+			w.Close()
+		}
 		if writeErr != nil {
 			return writeErr
 		}
